@@ -96,3 +96,423 @@ class C01(BaseMonitor):
 
 
 MONITORS = {"C01": C01}
+
+
+# ---------------------------------------------------------------------------------------------------
+# C16
+
+def raised_in_update_function(exc):
+    """True if the exception was thrown while an update_<attr> function of the library was running
+    (a natural recomputation fault), False if it comes from the link / validation machinery itself."""
+    tb = exc.__traceback__
+    while tb is not None:
+        code = tb.tb_frame.f_code
+        if code.co_name.startswith("update_") and "/efootprint/" in code.co_filename and (
+                "/core/" in code.co_filename or "/builders/" in code.co_filename):
+            return True
+        tb = tb.tb_next
+    return False
+
+
+def expected_lookups(spec):
+    """Reverse look-ups implied by the forward links of the spec (recomputed from scratch, plain Python)."""
+    O = spec["objs"]
+    users = {n: set() for n in O}
+    for n, o in O.items():
+        for a, v in o["attrs"].items():
+            if v is None:
+                continue
+            if v[0] == "ref" and v[1] in users:
+                users[v[1]].add(n)
+            elif v[0] == "refs":
+                for m in v[1]:
+                    if m in users:
+                        users[m].add(n)
+    cls = {n: O[n]["cls"] for n in O}
+    is_job = lambda n: cls[n] in S.JOB_CLASSES
+    steps_of_job = {j: {u for u in users[j] if cls[u] == "UsageJourneyStep"} for j in O if is_job(j)}
+    ujs_of_step = {s: {u for u in users[s] if cls[u] == "UsageJourney"} for s in O if cls[s] == "UsageJourneyStep"}
+    ups_of_uj = {j: {u for u in users[j] if cls[u] == "UsagePattern"} for j in O if cls[j] == "UsageJourney"}
+    ups_of_step = {s: set().union(*[ups_of_uj[uj] for uj in ujs_of_step[s]]) if ujs_of_step[s] else set()
+                   for s in ujs_of_step}
+    ups_of_job = {j: set().union(*[ups_of_step[s] for s in steps_of_job[j]]) if steps_of_job[j] else set()
+                  for j in steps_of_job}
+
+    def server_of_job(j):
+        a = O[j]["attrs"]
+        if "server" in a:
+            return a["server"][1]
+        return O[a["service"][1]]["attrs"]["server"][1]
+
+    jobs_of_server = {s: {j for j in O if is_job(j) and server_of_job(j) == s} for s in O if cls[s] in S.SERVER_CLASSES}
+    out = {"users": users, "steps_of_job": steps_of_job, "ujs_of_step": ujs_of_step, "ups_of_uj": ups_of_uj,
+           "ups_of_step": ups_of_step, "ups_of_job": ups_of_job, "jobs_of_server": jobs_of_server,
+           "net_of_up": {u: O[u]["attrs"]["network"][1] for u in O if cls[u] == "UsagePattern"},
+           "in_system": set(S.closure(spec))}
+    return out
+
+
+def names(xs):
+    return sorted(x.name for x in xs)
+
+
+class C16(BaseMonitor):
+    """Links between objects stay consistent under every kind of edit."""
+    prop = "C16"
+
+    def on_start(self):
+        self.check_links(-1, {"op": "initial"})
+
+    def next_op(self, i):
+        return opgen.gen_edit(self.k.rng("op", i), self.sim.spec, self.cfg, i, mix=opgen.C16_MIX)
+
+    # -- observation of the live links (no spec involved) -----------------------------------------
+    def live_links(self):
+        w = self.sim.world
+        out = {}
+        for n, o in w.objs.items():
+            sp = self.sim.spec["objs"][n]
+            for a, v in sp["attrs"].items():
+                if v is None:
+                    continue
+                if v[0] == "ref":
+                    tgt = getattr(o, a)
+                    out[(n, a)] = tgt.name if tgt is not None else None
+                elif v[0] == "refs":
+                    out[(n, a)] = [x.name for x in getattr(o, a)]
+            out[(n, "<containers>")] = names(o.modeling_obj_containers)
+        return out
+
+    def step(self, i, op):
+        sim = self.sim
+        before = self.live_links()
+        sim.expect = None
+        status, ret = self.execute(op)
+        kind = op["op"]
+        if status == "skip":
+            return "skip"
+        if status == "hang":
+            raise Violation("C16", "hang", {ret.site}, f"link operation does not return in {ret.site}", i, op_kind(op))
+        expect_exc = None
+        if kind == "list" and sim.expect is not None:
+            expect_exc = sim.expect["exc"]
+        elif kind == "delete" and op.get("expect") == "refused":
+            expect_exc = "PermissionError"
+        elif kind == "second_system":
+            expect_exc = "PermissionError"
+        if status == "raised":
+            got = type(ret).__name__
+            if raised_in_update_function(ret):
+                # a natural recomputation fault (capacity, storage...) is not a statement about links
+                self.res.count("ended_on_recomputation_fault:" + got)
+                self.stop = "op_raised"
+                return "raised"
+            if expect_exc is None:
+                raise Violation("C16", "unexpected_exception", {f"{op_kind(op)}:{got}"},
+                                f"{op_kind(op)} raised {got}: {str(ret)[:200]} where a Python list / a plain "
+                                f"assignment raises nothing", i, op_kind(op))
+            if got != expect_exc:
+                raise Violation("C16", "wrong_exception", {f"{op_kind(op)}:{got}"},
+                                f"raised {got} ({str(ret)[:120]}), expected {expect_exc}", i, op_kind(op))
+            after = self.live_links()
+            changed = [k for k in before.keys() | after.keys() if before.get(k) != after.get(k)]
+            if changed:
+                raise Violation("C16", "refused_op_changed_links", {f"{self.cls_of(k[0])}.{k[1]}" for k in changed
+                                                                     if k[0] in sim.spec["objs"]} or {"?"},
+                                f"{op_kind(op)} raised {got} but links changed: {sorted(changed)[:5]}", i, op_kind(op))
+            self.res.count("fault:expected_" + got)
+            self.check_links(i, op)
+            return "refused"
+        # accepted
+        if expect_exc is not None:
+            raise Violation("C16", "missing_exception", {f"{op_kind(op)}:{expect_exc}"},
+                            f"{op_kind(op)} {op.get('args', '')} was accepted, expected {expect_exc}", i, op_kind(op))
+        if kind == "list" and op["method"] == "pop":
+            got_name = getattr(ret, "name", None)
+            if got_name != sim.expect["ret"]:
+                raise Violation("C16", "wrong_return", {"list:pop"}, f"pop returned {got_name}, expected "
+                                f"{sim.expect['ret']}", i, op_kind(op))
+        self.check_links(i, op)
+        return "ok"
+
+    def check_links(self, i, op):
+        sim = self.sim
+        spec, w = sim.spec, sim.world
+        O = spec["objs"]
+        E = expected_lookups(spec)
+        bad = []
+
+        def expect(name, what, got, want):
+            if got != want:
+                bad.append(((name, what), f"{got} != expected {want}"))
+
+        for n, o in w.objs.items():
+            sp = O[n]
+            for a, v in sp["attrs"].items():
+                if v is None:
+                    continue
+                if v[0] == "ref":
+                    expect(n, a, getattr(o, a).name, v[1])
+                elif v[0] == "refs":
+                    lst = getattr(o, a)
+                    expect(n, a, [x.name for x in lst], list(v[1]))
+                    if lst.modeling_obj_container is not o or lst.attr_name_in_mod_obj_container != a:
+                        bad.append(((n, a), "live list is not attached to its object"))
+                    for x in lst:
+                        if x.modeling_obj_container is not o or x.attr_name_in_mod_obj_container != a:
+                            bad.append(((n, a), f"wrapper of {x.name} not attached to {n}.{a}"))
+                            break
+            conts = o.modeling_obj_containers
+            expect(n, "modeling_obj_containers", names(conts), sorted(E["users"][n]))
+            c = sp["cls"]
+            want_sys = ["sys"] if n in E["in_system"] else []
+            expect(n, "systems", names(o.systems), want_sys)
+            if c in S.JOB_CLASSES:
+                expect(n, "usage_journey_steps", names(o.usage_journey_steps), sorted(E["steps_of_job"][n]))
+                expect(n, "usage_patterns", names(o.usage_patterns), sorted(E["ups_of_job"][n]))
+                expect(n, "networks", names(o.networks), sorted({E["net_of_up"][u] for u in E["ups_of_job"][n]}))
+            elif c == "UsageJourneyStep":
+                expect(n, "usage_journeys", names(o.usage_journeys), sorted(E["ujs_of_step"][n]))
+                expect(n, "usage_patterns", names(o.usage_patterns), sorted(E["ups_of_step"][n]))
+            elif c == "UsageJourney":
+                expect(n, "usage_patterns", names(o.usage_patterns), sorted(E["ups_of_uj"][n]))
+                want_jobs = [j for s in sp["attrs"]["uj_steps"][1] for j in O[s]["attrs"]["jobs"][1]]
+                expect(n, "jobs", [j.name for j in o.jobs], want_jobs)
+            elif c in S.SERVER_CLASSES:
+                expect(n, "jobs", names(o.jobs), sorted(E["jobs_of_server"][n]))
+                expect(n, "installed_services", names(o.installed_services),
+                       sorted(m for m in O if O[m]["cls"] in S.SERVICE_CLASSES and O[m]["attrs"]["server"][1] == n))
+            elif c == "Storage":
+                srvs = [m for m in O if O[m]["cls"] in S.SERVER_CLASSES and O[m]["attrs"]["storage"][1] == n]
+                want = set()
+                for s_ in srvs:
+                    want |= E["jobs_of_server"][s_]
+                expect(n, "jobs", names(o.jobs), sorted(want))
+            elif c in ("Network", "Country"):
+                expect(n, "usage_patterns", names(o.usage_patterns), sorted(u for u in E["users"][n]))
+            elif c in S.SERVICE_CLASSES:
+                expect(n, "jobs", names(o.jobs), sorted(E["users"][n]))
+            elif c == "System":
+                ups = sp["attrs"]["usage_patterns"][1]
+                expect(n, "networks", names(o.networks), sorted({E["net_of_up"][u] for u in ups}))
+                expect(n, "usage_journeys", names(o.usage_journeys),
+                       sorted({O[u]["attrs"]["usage_journey"][1] for u in ups}))
+                expect(n, "servers", names(o.servers), sorted(
+                    {m for m in E["in_system"] if O[m]["cls"] in S.SERVER_CLASSES and E["jobs_of_server"][m] & {
+                        j for j in E["in_system"] if O[j]["cls"] in S.JOB_CLASSES and E["ups_of_job"][j]}}))
+        self.res.count("lookups_checked", len(w.objs))
+        if bad:
+            where = {f"{self.cls_of(k[0])}.{k[1]}" for k, _ in bad}
+            raise Violation("C16", "links", where, self.fmt(sorted(bad)), i, op_kind(op))
+
+
+MONITORS["C16"] = C16
+
+
+# ---------------------------------------------------------------------------------------------------
+# C14
+
+from efsim import identity, faults, gen  # noqa: E402
+from efsim.sim import Sim  # noqa: E402
+
+FAULT_OPS = ("bad_set", "bad_group", "bad_list", "bad_construct")
+
+
+def all_pairs():
+    """(class, parameter) pairs of the public class list, in a fixed order."""
+    out = []
+    from efootprint.core.all_classes_in_order import ALL_EFOOTPRINT_CLASSES
+    for c in ALL_EFOOTPRINT_CLASSES:
+        for attr, kind in S.params_of(c.__name__):
+            if kind not in ("name", "str"):
+                out.append((c.__name__, attr))
+    return out
+
+
+class FaultMonitorMixin:
+    """Shared by the fault-centred properties: lazily built control twin for attribution (DESIGN 2.6)."""
+
+    def fault_free_replay_is_clean(self):
+        """Re-run the accepted, non-fault part of the history on a second world with the same keyed ids and
+        compare it with the fresh reference: False means the engine itself deviates on this history."""
+        twin = Sim(self.res.header["spec"], self.sim.salt)
+        for op in self.res.ops:
+            if op["op"] in FAULT_OPS or op.get("fault"):
+                continue
+            try:
+                twin.apply(op)
+            except Exception:
+                return False
+        try:
+            ref = S.build_world(twin.spec, twin.salt)
+        except Exception:
+            return False
+        names_ = S.closure(twin.spec)
+        d = C.diff_snapshots(C.calc_snapshot(twin.world, names_), C.calc_snapshot(ref, names_),
+                             lambda n: twin.spec["objs"][n]["cls"])
+        return not d
+
+    def compare_with_reference(self, i, op, prop, oracle):
+        sim = self.sim
+        try:
+            ref = reference_world(sim)
+        except Exception as e:
+            self.res.count("left_envelope:" + type(e).__name__)
+            self.stop = "left_envelope"
+            return
+        names_ = S.closure(sim.spec)
+        diffs = C.diff_snapshots(C.calc_snapshot(sim.world, names_), C.calc_snapshot(ref, names_), self.cls_of)
+        self.res.count("values_compared", len(names_))
+        if diffs:
+            if not self.fault_free_replay_is_clean():
+                self.res.count("inconclusive_engine_defect")
+                self.stop = "inconclusive_engine_defect"
+                return
+            raise Violation(prop, oracle, self.where_of(diffs), self.fmt(diffs), i, op_kind(op))
+
+
+class C14(FaultMonitorMixin, BaseMonitor):
+    """Invalid inputs are rejected, and a rejected edit changes nothing."""
+    prop = "C14"
+
+    def __init__(self, sim, k, cfg, res, opts):
+        super().__init__(sim, k, cfg, res, opts)
+        self.queue = None
+        self.pending_fault_check = False
+
+    @staticmethod
+    def spec_generator(k, cfg, index):
+        (_, _), variant = C14.plan(index)
+        if variant < 2:
+            return gen.full_spec(k, cfg)
+        cfg["builders"] = True
+        return gen.gen_spec(k, cfg)
+
+    @staticmethod
+    def plan(index):
+        pairs = all_pairs()
+        return pairs[index % len(pairs)], index // len(pairs)
+
+    def on_start(self):
+        idx = self.res.header["index"]
+        (cls_name, attr), variant = self.plan(idx)
+        self.mode = "enumeration" if variant < 2 else "history"
+        self.continue_after_violation = self.mode == "enumeration"
+        self.res.extra = {"mode": self.mode, "pair": f"{cls_name}.{attr}"}
+        if self.mode == "enumeration":
+            spec = self.sim.spec
+            entries = [e for e in faults.catalogue(spec, cls_name) if e["attr"] == attr]
+            q = []
+            for e in entries:
+                base = {"obj": e["obj"], "attr": e["attr"], "value": e["value"], "fault": e["fault"], "strong": e["strong"]}
+                q.append(dict(base, op="bad_construct", like=e["obj"]))
+                q.append(dict(base, op="bad_set"))
+                other = self.valid_change(exclude=e["obj"])
+                if other is not None:
+                    bad = {"obj": e["obj"], "attr": e["attr"], "value": e["value"]}
+                    q.append({"op": "bad_group", "changes": [other, bad], "fault": e["fault"], "strong": e["strong"],
+                              "obj": e["obj"], "attr": e["attr"]})
+                    q.append({"op": "bad_group", "changes": [bad, other], "fault": e["fault"], "strong": e["strong"],
+                              "obj": e["obj"], "attr": e["attr"]})
+                if e["fault"] in ("list_with_wrong_class", "list_with_non_object"):
+                    wrong = e["value"][1][-1] if e["fault"] == "list_with_wrong_class" else 3.5
+                    for m in ("append", "insert", "extend", "iadd", "setitem"):
+                        if m == "setitem" and not spec["objs"][e["obj"]]["attrs"][e["attr"]][1]:
+                            continue
+                        q.append({"op": "bad_list", "obj": e["obj"], "attr": e["attr"], "method": m, "bad": wrong,
+                                  "fault": e["fault"] + ":" + m, "strong": True})
+            self.queue = q
+
+    def valid_change(self, exclude):
+        r = self.k.rng("valid-change", exclude)
+        spec = self.sim.spec
+        for _ in range(10):
+            sub = opgen.gen_numeric(r, spec, self.cfg, set(S.closure(spec)), 0)
+            if sub is not None and sub["obj"] != exclude:
+                return {k_: v for k_, v in sub.items() if k_ != "op"}
+        return None
+
+    def next_op(self, i):
+        if self.mode == "enumeration":
+            if i >= len(self.queue):
+                return None
+            op = dict(self.queue[i])
+            op["i"] = i
+            return op
+        if i >= self.opts.get("history_ops", 14):
+            return None
+        r = self.k.rng("op", i)
+        spec = self.sim.spec
+        if r.random() < max(0.3, self.cfg.get("fault_rate", 0.2)):
+            present = sorted({o["cls"] for o in spec["objs"].values()})
+            cls_name = r.choice(present)
+            entries = faults.catalogue(spec, cls_name)
+            if entries:
+                e = r.choice(entries)
+                bad = {"obj": e["obj"], "attr": e["attr"], "value": e["value"]}
+                if r.random() < 0.35:
+                    other = opgen.gen_numeric(r, spec, self.cfg, set(S.closure(spec)), i)
+                    if other is not None and other["obj"] != e["obj"]:
+                        other = {k_: v for k_, v in other.items() if k_ != "op"}
+                        ch = [other, bad] if r.random() < 0.5 else [bad, other]
+                        return {"op": "bad_group", "changes": ch, "fault": e["fault"], "strong": e["strong"],
+                                "obj": e["obj"], "attr": e["attr"], "i": i}
+                return dict(bad, op="bad_set", fault=e["fault"], strong=e["strong"], i=i)
+        return opgen.gen_edit(r, spec, self.cfg, i)
+
+    def step(self, i, op):
+        sim = self.sim
+        if op["op"] not in FAULT_OPS:
+            status, ret = self.execute(op)
+            if status == "raised":
+                self.res.count("ended_on_raise:" + type(ret).__name__)
+                self.stop = "op_raised"
+                return "raised"
+            if status == "hang":
+                self.stop = "hang_in_plain_edit"
+                return "hang"
+            if status == "ok" and self.pending_fault_check:
+                # "the control twin still agrees afterwards": the first accepted edit after a refusal
+                self.compare_with_reference(i, op, "C14", "edit_after_refusal_deviates")
+                self.pending_fault_check = False
+            return status
+        fault = f"{self.cls_of(op['obj'])}.{op['attr']}:{op['fault']}"
+        construct = op["op"] == "bad_construct"
+        before, pins = (None, None) if construct else identity.snapshot(sim.world)
+        status, ret = self.execute(op)
+        if status == "skip":
+            return "skip"
+        if status == "hang":
+            raise Violation("C14", "hang", {fault}, f"invalid value makes the call hang in {ret.site}", i, op_kind(op))
+        self.res.count("fault:" + op["fault"].split(":")[0] + ("" if op["strong"] else "(weak)"))
+        if status == "ok":
+            if op["strong"]:
+                raise Violation("C14", "accepted_invalid" + ("_at_construction" if construct else ""), {fault},
+                                f"{op['op']} with {op['fault']} value {str(op.get('value', op.get('bad')))[:80]} "
+                                f"was accepted", i, op_kind(op))
+            self.res.count("weak_fault_accepted")
+            self.stop = "weak_fault_accepted"
+            return "accepted"
+        self.res.count("refused:" + type(ret).__name__)
+        if construct:
+            return "refused"
+        in_recomputation = raised_in_update_function(ret)
+        if in_recomputation and not op["strong"]:
+            # accepted by validation, failed while recomputing: that is C15's subject, not a refusal
+            self.res.count("weak_fault_failed_in_recomputation")
+            self.stop = "weak_fault_failed_in_recomputation"
+            return "raised"
+        after, pins2 = identity.snapshot(sim.world)
+        d = identity.diff(before, after)
+        if d:
+            where = {f"{self.cls_of(k_[0])}.{k_[1]}" for k_, _ in d if k_[0] in sim.spec["objs"]}
+            oracle = "invalid_value_installed" if in_recomputation else "refused_edit_changed_model"
+            raise Violation("C14", oracle, where or {"?"},
+                            f"{fault} refused with {type(ret).__name__} but: " + "; ".join(
+                                f"{k_}: {why}" for k_, why in d[:5]) + (f" (+{len(d) - 5} more)" if len(d) > 5 else ""),
+                            i, op_kind(op))
+        self.pending_fault_check = True
+        return "refused"
+
+
+MONITORS["C14"] = C14
